@@ -401,7 +401,7 @@ impl<'a> Ev<'a> {
         Ok(match e {
             AddrE::Party(n) => party_address(n, self.sc.network),
             AddrE::Policy(i) => script_address(&self.sc.prog.policies[*i].1, self.sc.network),
-            AddrE::Hex(b) => b.clone(),
+            AddrE::Hex(b) | AddrE::HexString(b) | AddrE::Bech32String(b) => b.clone(),
         })
     }
 
